@@ -1059,7 +1059,12 @@ class OdeSystem(object):
                         prev_time = self.__t[self.counter - 1]
                         self.counter -= 1
 
-                        sol_tuple = (self.__sol, prev_time, next_time)
+                        # the events of this step are located on the interpolant(s) of this step alone: looked up by time in the whole
+                        # dense output, a step that retraces times covered before (integrate(t) back towards the start) was examined
+                        # on a piece of the earlier leg
+                        __step_sol = DenseOutput(None, None)
+                        __step_sol.add_interpolant(__t_interp, __y_interp)
+                        sol_tuple = (__step_sol, prev_time, next_time)
                         try:
                             active_events, roots, end_int, evs = handle_events(sol_tuple, events, self.constants, direction, is_terminal, (requires_dstate,))
                         except BaseException:
@@ -1080,7 +1085,7 @@ class OdeSystem(object):
                                 true_positive = (prev_time + dTime <= root) & (root <= self.__t[self.counter])
 
                             if true_positive:
-                                ev_state = StateTuple(t=root, y=self.__sol(root), event=ev)
+                                ev_state = StateTuple(t=root, y=__step_sol(root), event=ev)
                                 ev_id = active_events[ev_idx]
                                 if not self.__events or last_occurrence[ev_id] == -1:
                                     last_occurrence[ev_id] = len(self.__events)
